@@ -124,14 +124,34 @@ theorem no_shared_write : (globalFacts.all fun g => g.writtenIn.all (· ∈ init
     decode/encode tables, and only at the sites where they are handed to
     read-only operations (`ReadSymbol`/`WriteSymbol`/`TryRead…` take the table by
     pointer; flate stores `&decLit`/`&decDist` in the instance but writes
-    `MinBits` only to its own `pd1`). -/
+    `MinBits` only to its own `pd1`).  Entries ending in `[:]` are slice expressions over a
+    package-level array or slice: each of them is the source of a `copy`/`range`/comparison
+    (reviewed: `clenLens`, `complexLens`, `simpleLens*`, `dictLUT`, `endBlock`, `magic`,
+    `IdentityLUT`), never the destination of a write. -/
 theorem address_taken_expected :
     (globalFacts.filter fun g => !g.addrTakenIn.isEmpty).map (fun g => (g.pkg, g.name, g.addrTakenIn)) =
-      [("flate", "decDist", ["*Reader.readBlockHeader"]), ("flate", "decLit", ["*Reader.readBlockHeader"]),
-       ("brotli", "decCLens", ["*bitReader.readComplexPrefixCode"]), ("brotli", "decCounts", ["*Reader.readPrefixCodes"]),
-       ("brotli", "decMaxRLE", ["*Reader.readContextMap"]), ("brotli", "decWinBits", ["*Reader.readStreamHeader"]),
-       ("bzip2", "decSel", ["*Reader.decodePrefix"]), ("bzip2", "encSel", ["*Writer.encodePrefix"]),
-       ("meta", "decHuff", ["*Reader.decodeBlock"]), ("meta", "encHuff", ["*Writer.encodeBlock"])] := by
+      [
+       ("flate", "clenLens", ["*prefixReader.ReadPrefixCodes[:]"]),
+       ("flate", "decDist", ["*Reader.readBlockHeader"]),
+       ("flate", "decLit", ["*Reader.readBlockHeader"]),
+       ("brotli", "complexLens", ["*bitReader.readComplexPrefixCode[:]"]),
+       ("brotli", "decCLens", ["*bitReader.readComplexPrefixCode"]),
+       ("brotli", "decCounts", ["*Reader.readPrefixCodes"]),
+       ("brotli", "decMaxRLE", ["*Reader.readContextMap"]),
+       ("brotli", "decWinBits", ["*Reader.readStreamHeader"]),
+       ("brotli", "dictLUT", ["*Reader.readCommands[:]"]),
+       ("brotli", "simpleLens1", ["*bitReader.readSimplePrefixCode[:]"]),
+       ("brotli", "simpleLens2", ["*bitReader.readSimplePrefixCode[:]"]),
+       ("brotli", "simpleLens3", ["*bitReader.readSimplePrefixCode[:]"]),
+       ("brotli", "simpleLens4a", ["*bitReader.readSimplePrefixCode[:]"]),
+       ("brotli", "simpleLens4b", ["*bitReader.readSimplePrefixCode[:]"]),
+       ("bzip2", "decSel", ["*Reader.decodePrefix"]),
+       ("bzip2", "encSel", ["*Writer.encodePrefix"]),
+       ("xflate", "endBlock", ["*chunkReader.Read[:]"]),
+       ("xflate", "magic", ["*Reader.decodeFooter[:]", "*Writer.encodeFooter[:]"]),
+       ("meta", "decHuff", ["*Reader.decodeBlock"]),
+       ("meta", "encHuff", ["*Writer.encodeBlock"]),
+       ("internal", "IdentityLUT", ["*MoveToFront.Decode[:]", "*MoveToFront.Encode[:]"])] := by
   decide
 
 end Compress.Facts
